@@ -81,6 +81,9 @@ func (s *Store) Store(ctx context.Context, name string, b []byte) error {
 	}
 	if gate != nil {
 		if err := gate(name, b); err != nil {
+			s.mu.Lock()
+			s.Stores = append(s.Stores, name+":GATEFAIL")
+			s.mu.Unlock()
 			return err
 		}
 	}
@@ -164,6 +167,9 @@ func NewWorld(opts map[string]string) *World {
 }
 
 func (w *World) Counts() map[string]int { return w.counts }
+func (w *World) Store(i int) *Store      { return w.store(i) }
+func (t *treeT) StoreID() int            { return t.store }
+func (t *treeT) Kind() int               { return t.kind }
 func (w *World) ResetCounts()           { w.counts = map[string]int{}; w.Fired = false; w.FaultSite = "" }
 
 func (w *World) hitSeq(kind string) bool {
